@@ -18,6 +18,6 @@ out = ["# Thorough tier — last complete sweep", "",
        "Produced by `tools/runsome.sh thorough …` + `tools/thorough_report.py` on the unchanged tree (/repo %s, /verif around %s), 16 cores shared with another job, so wall times are upper bounds." % (repo, commit), "",
        "| property | result |", "|---|---|"] + rows + ["",
        "## Variants not claimed at the thorough bounds", "",
-       "Budget per harness variant: 200 000 paths or 2 minutes. These are reported in each evidence file under `coverage.bounds_reduced`.", ""] + (reduced or ["(none)"])
+       "Budget per harness variant: 200 000 paths or 4 minutes. These are reported in each evidence file under `coverage.bounds_reduced`.", ""] + (reduced or ["(none)"])
 open(os.path.join(root, "THOROUGH.md"), "w").write("\n".join(out) + "\n")
 print("\n".join(out[:30]))
